@@ -11,6 +11,12 @@ package ratelimiter
 //                         Requests of class "x" (POST) fall under a URL rule that every generation
 //                         limits to one permit per hour: whether the call is limited is compared
 //                         with the model (the limiter is the state cell the generations share).
+//                         Requests of class "d" (PUT) fall under a URL rule whose limit is the one of
+//                         the filter's default policy, version dv of which is tight (1 permit per
+//                         hour, odd dv) or loose (never limits, even dv); an update of kind "dflt"
+//                         switches it - by changing defaultPolicyRef between two policies that both
+//                         specs define identically, by changing the rule's policyRef, or by changing
+//                         the content of the default policy (one realisation per schedule).
 
 import (
 	"fmt"
@@ -32,10 +38,34 @@ import (
 
 func init() { logger.InitNop() }
 
-// version ver of the filter spec: the URL rules and their policies never change (only an unused
-// policy does), so that Inherit takes the limiters over.  POST requests (class "x") are limited to one
-// permit per hour - nothing is refreshed while a schedule is replayed; everything else is never limited.
-func c11RlNew(pipe string, ver int) *RateLimiter {
+const (
+	c11RlTight = "timeoutDuration: 1ms\n  limitRefreshPeriod: 1h\n  limitForPeriod: 1\n"
+	c11RlLoose = "timeoutDuration: 100ms\n  limitRefreshPeriod: 10ms\n  limitForPeriod: 1000000\n"
+)
+
+// version ver of the filter spec: the URL rules for POST and for everything else and their policies
+// never change (only an unused policy does), so that Inherit takes their limiters over.  POST requests
+// (class "x") are limited to one permit per hour - nothing is refreshed while a schedule is replayed.
+// PUT requests (class "d") fall under the default policy, version dv: tight (1 permit per hour) for odd
+// dv, loose for even dv; `how` is the way the spec expresses the switch:
+//   0  defaultPolicyRef names dA / dB, both defined (identically) in every version; the rule has no policyRef
+//   1  the rule's policyRef names dA / dB
+//   2  the rule has no policyRef, defaultPolicyRef is always dflt, the content of policy dflt changes
+// Everything else (GET) is never limited.
+func c11RlNew(pipe string, ver int) *RateLimiter { return c11RlNewD(pipe, ver, 1, 0) }
+
+func c11RlNewD(pipe string, ver, dv, how int) *RateLimiter {
+	name, content := "dA", c11RlTight
+	if dv%2 == 0 {
+		name, content = "dB", c11RlLoose
+	}
+	dref, pref := name, ""
+	switch how {
+	case 1:
+		dref, pref = "pol", "  policyRef: "+name+"\n"
+	case 2:
+		dref = "dflt"
+	}
 	y := fmt.Sprintf(`
 name: rl
 kind: RateLimiter
@@ -48,18 +78,24 @@ policies:
   timeoutDuration: 1ms
   limitRefreshPeriod: 1h
   limitForPeriod: 1
-- name: unused
+- name: dA
+  %s- name: dB
+  %s- name: dflt
+  %s- name: unused
   limitForPeriod: %d
-defaultPolicyRef: pol
+defaultPolicyRef: %s
 urls:
 - methods: [POST]
   url:
     prefix: /
   policyRef: tight
-- url:
+- methods: [PUT]
+  url:
+    prefix: /
+%s- url:
     prefix: /
   policyRef: pol
-`, 10+ver)
+`, c11RlTight, c11RlLoose, content, 10+ver, dref, pref)
 	raw := map[string]interface{}{}
 	if err := yaml.Unmarshal([]byte(y), &raw); err != nil {
 		panic(err)
@@ -70,6 +106,8 @@ urls:
 	}
 	return kind.CreateInstance(spec).(*RateLimiter)
 }
+
+var c11RlHow = []string{"defaultPolicyRef", "the rule's policyRef", "the content of the default policy"}
 
 func c11RlSite(stack string) string {
 	for _, ln := range strings.Split(stack, "\n") {
@@ -150,7 +188,7 @@ func TestVerifC11RlReplay(t *testing.T) {
 	behs := vx.ReadBehaviours(t, "VERIF_IN")
 	out := vx.NewWriter(t, "VERIF_OUT")
 	defer out.Close()
-	steps, mism, unjudged := 0, 0, 0
+	steps, mism, unjudged, judgedD := 0, 0, 0, 0
 	// baseline: on a first generation the second POST is limited, a GET never is - otherwise the harness cannot judge
 	base := c11RlNew("base", 1)
 	base.Init()
@@ -162,10 +200,28 @@ func TestVerifC11RlReplay(t *testing.T) {
 			"what": fmt.Sprintf("harness: baseline: POST, POST, GET on a fresh filter (POST limited to 1 per hour) answered %q, %q, %q", r1, r2, r3)})
 		behs = nil
 	}
+	// ... and so is the second PUT under a tight default policy, no PUT under a loose one, however the spec says it
+	for how := 0; how < 3 && behs != nil; how++ {
+		a, b := c11RlNewD("base", 1, 1, how), c11RlNewD("base", 1, 2, how)
+		a.Init()
+		b.Init()
+		a1, _, _ := c11RlHandleM(a, http.MethodPut)
+		a2, _, _ := c11RlHandleM(a, http.MethodPut)
+		b1, _, _ := c11RlHandleM(b, http.MethodPut)
+		b2, _, _ := c11RlHandleM(b, http.MethodPut)
+		b3, _, _ := c11RlHandleM(b, http.MethodPut)
+		if a1 != "" || a2 != resultRateLimited || b1 != "" || b2 != "" || b3 != "" {
+			out.Raw(vx.M{"k": "mismatch", "b": -1, "step": 0, "a": "baseline", "at": vx.M{}, "behaviour": []vx.M{},
+				"what": fmt.Sprintf("harness: baseline (%s): PUT, PUT under a tight default policy answered %q, %q; PUT x 3 under a loose one %q, %q, %q",
+					c11RlHow[how], a1, a2, b1, b2, b3)})
+			behs = nil
+		}
+	}
 	for bi, beh := range behs {
+		how := bi % 3 // the way this schedule's specs express a switch of the default policy
 		cur := map[string]*RateLimiter{}
 		for _, p := range []string{"pa", "pb"} {
-			cur[p] = c11RlNew(p, 1)
+			cur[p] = c11RlNewD(p, 1, 1, how)
 			cur[p].Init()
 		}
 		held := map[string]*RateLimiter{}
@@ -173,7 +229,7 @@ func TestVerifC11RlReplay(t *testing.T) {
 		cls := map[string]string{}
 		failed := map[string]bool{}
 		var next, removed *RateLimiter
-		pend := 0
+		pend, pendD := 0, 1
 		for si, st := range beh {
 			steps++
 			bad := ""
@@ -193,6 +249,8 @@ func TestVerifC11RlReplay(t *testing.T) {
 				method := http.MethodGet
 				if cls[r] == "x" {
 					method = http.MethodPost
+				} else if cls[r] == "d" {
+					method = http.MethodPut
 				}
 				res, pv, site := c11RlHandleM(held[r], method)
 				failed[r] = pv != ""
@@ -201,6 +259,28 @@ func TestVerifC11RlReplay(t *testing.T) {
 				}
 				if vx.Bool(st["ok"]) && pv != "" {
 					bad = fmt.Sprintf("panic: Handle on the held generation (version %d): panic in %s: %s", vx.Int(st["ver"]), site, pv)
+				} else if pv == "" && cls[r] == "d" {
+					// the limit of the default policy of the held generation: is the call limited as the model says?
+					limited, want := res == resultRateLimited, vx.Str(st["res"]) == "limited"
+					pol := "loose: never limits"
+					if vx.Bool(st["tight"]) {
+						pol = "tight: 1 permit per hour"
+					}
+					switch {
+					case limited == want:
+						judgedD++
+					case vx.Bool(st["closed"]):
+						bad = "unjudged"
+					case want:
+						bad = fmt.Sprintf("configured: a request beyond the limit of the default policy (version %d, %s) passed generation %d of the filter, "+
+							"which is not closed; model says it is limited (default policy switched by: %s)", vx.Int(st["dv"]), pol, vx.Int(st["ver"]), c11RlHow[how])
+					case !vx.Bool(st["tight"]):
+						bad = fmt.Sprintf("configured: generation %d of the filter, whose default policy (version %d, %s) does not limit the URL, "+
+							"limited a request: the limiter of a previous generation's policy is still in force (default policy switched by: %s)",
+							vx.Int(st["ver"]), vx.Int(st["dv"]), pol, c11RlHow[how])
+					default:
+						bad = fmt.Sprintf("harness: generation %d limited a request for which the model still has a permit", vx.Int(st["ver"]))
+					}
 				} else if pv == "" && cls[r] == "x" {
 					// the limit every generation configures for this URL: is the call limited as the model says?
 					limited, want := res == resultRateLimited, vx.Str(st["res"]) == "limited"
@@ -224,13 +304,13 @@ func TestVerifC11RlReplay(t *testing.T) {
 					bad = fmt.Sprintf("status: request failed, model says %s", vx.Str(st["st"]))
 				}
 			case "pipBegin", "createInit":
-				pend = vx.Int(st["fv"]) // the filter's own spec: version fv of the pipeline's filters section
+				pend, pendD = vx.Int(st["fv"]), vx.Int(st["dv"]) // the filter's own spec: version fv of the pipeline's filters section
 				if vx.Str(st["a"]) == "createInit" {
-					next = c11RlNew(p, pend)
+					next = c11RlNewD(p, pend, pendD, how)
 					next.Init()
 				}
 			case "pipInherit":
-				next = c11RlNew(p, pend)
+				next = c11RlNewD(p, pend, pendD, how)
 				next.Inherit(cur[p])
 				cur[p].Close() // Pipeline.Inherit closes the previous generation right after
 			case "pipStore", "createStore":
@@ -255,5 +335,5 @@ func TestVerifC11RlReplay(t *testing.T) {
 			}
 		}
 	}
-	out.Raw(vx.M{"k": "summary", "behaviours": len(behs), "steps": steps, "mismatches": mism, "unjudged": unjudged})
+	out.Raw(vx.M{"k": "summary", "behaviours": len(behs), "steps": steps, "mismatches": mism, "unjudged": unjudged, "judged_d": judgedD})
 }
